@@ -17,7 +17,12 @@ MANIFEST_ENTRY = dict(
          'following the first submit, for k swept over the whole run (before receiving work, holding delayed tasks, mid-task, results in '
          'flight, idle), optionally followed by a second crash; a send to the dead peer fails with ConnectionResetError or BrokenPipeError '
          '(scheduler choice). L1 requires: every pending and later client call returns an exception, a result returned after the crash is '
-         'the complete own output, and at the final idle snapshot no node of that runtime is still running.',
+         'the complete own output, and at the final idle snapshot no node of that runtime is still running. A run that never falls idle '
+         '(some node spins) is not discarded: after a step bound - and once more with a four-fold bound - its trace ends in a snapshot '
+         'marked livelock and is judged by the same clauses. Fault model of the kernel: a recv from a dead peer gives end-of-file or - when '
+         'the peer died with unread data from that endpoint - ConnectionResetError (scheduler choice); a connection a process held when it '
+         'forked children (the manager\'s link to the server, an attached server\'s link to its client) closes for the peer only when the '
+         'process and all those children are gone.',
     note='Faults modelled: process death / connection loss only (no half-open TCP, no paused processes). Crashes before the first client '
          'submit (runtime start-up) are outside the statement. "Bounded time" is judged as "before the system falls idle" under the '
          'maximal-progress reading of timeouts.',
